@@ -208,3 +208,68 @@ package xmpp
 //@   ensures [C06.quiet] old(plainPacket(r, p)) && old(noRoute(r, p)) && !old(isIQRequest(p)) ==> count(HandlePacket) == old(count(HandlePacket)) && count(Send) == old(count(Send)) && count(SendRaw) == old(count(SendRaw))
 //@   assigns *
 //@   emits HandlePacket, Send, SendAttrs, SendRaw
+
+// ---------------------------------------------------------------------------
+// C16: component handshake
+//
+//@ func (*xmpp.Component).handshake(c, streamId) (digest)
+//@   requires c != nil
+//@   ensures [C16.digest] digest == hexenc(sha1raw(streamId + c.Secret))
+//@   ensures [C16.digest.shape] len(digest) == 40 && inre(digest, "(re.* (re.union (re.range \"0\" \"9\") (re.range \"a\" \"f\")))")
+//
+// Events and callbacks shared by the connection-level properties.
+//@ event EventHandler(ev xmpp.Event)
+//@ event ErrorHandler(err Iface)
+//@ event Connected(t Iface, id Str)
+//@ event PacketRead(pk Iface)
+//
+// User callbacks (A-CB): one atomic event each; they do not change library state.
+//@ func field:xmpp.EventManager.Handler(ev) (err)
+//@   emit EventHandler(ev)
+//@ func field:xmpp.Component.ErrorHandler(err)
+//@   emit ErrorHandler(err)
+//@ func field:xmpp.Client.ErrorHandler(err)
+//@   emit ErrorHandler(err)
+//
+//@ func (*xmpp.EventManager).updateState(em, state)
+//@   requires em != nil
+//@   ensures [C12.state] em.CurrentState.state == state && em.Handler == old(em.Handler)
+//@   ensures [C12.event] old(em.Handler) != nil ==> count(EventHandler) == old(count(EventHandler)) + 1 && last(EventHandler).State.state == state
+//@   ensures old(em.Handler) == nil ==> count(EventHandler) == old(count(EventHandler))
+//@   assigns em.CurrentState.state
+//@   emits EventHandler
+//
+//@ func (*xmpp.EventManager).streamError(em, error, desc)
+//@   requires em != nil
+//@   ensures [C12.state] em.CurrentState.state == StateStreamError && em.Handler == old(em.Handler)
+//@   ensures [C12.event] old(em.Handler) != nil ==> count(EventHandler) == old(count(EventHandler)) + 1 && last(EventHandler).State.state == StateStreamError && last(EventHandler).StreamError == error && last(EventHandler).Description == desc
+//@   ensures old(em.Handler) == nil ==> count(EventHandler) == old(count(EventHandler))
+//@   assigns em.CurrentState.state
+//@   emits EventHandler
+//
+//@ func (*xmpp.EventManager).disconnected(em, state)
+//@   requires em != nil
+//@   ensures [C12.state] em.CurrentState.state == StateDisconnected && em.Handler == old(em.Handler)
+//@   ensures [C12.event] old(em.Handler) != nil ==> count(EventHandler) == old(count(EventHandler)) + 1 && last(EventHandler).State.state == StateDisconnected && last(EventHandler).SMState == state
+//@   ensures old(em.Handler) == nil ==> count(EventHandler) == old(count(EventHandler))
+//@   assigns em.CurrentState.state
+//@   emits EventHandler
+//
+// Transport interface (the parts the session and component code relies on).
+//@ func (xmpp.Transport).Connect(t) (id, err)
+//@   emit Connected(t, id) when err == nil
+//@ func (xmpp.Transport).GetDecoder(t) (d)
+//@   ensures d != nil
+//@ func (xmpp.Transport).Close(t) (err)
+//@ func (stanza.Packet).Name(p) (name)
+//@ func (xmpp.Transport).ReceivedStreamClose(t)
+//
+//@ func (*xmpp.Component).Resume(c) (err)
+//@   requires c != nil
+//@   ensures [C16.established] err == nil ==> c.CurrentState.state == StateSessionEstablished && count(Spawn_recv) == old(count(Spawn_recv)) + 1 && last(Spawn_recv) == c
+//@   ensures [C16.needs.handshake] err == nil ==> count(PacketRead) == old(count(PacketRead)) + 1 && typeof(last(PacketRead)) == stanza.Handshake
+//@   ensures [C16.failure] err != nil ==> typeof(err) == ConnError && count(Spawn_recv) == old(count(Spawn_recv)) && c.CurrentState.state != StateSessionEstablished
+//@   ensures [C16.wire] count(Write) <= old(count(Write)) + 1 && (count(Write) == old(count(Write)) + 1 ==> count(Connected) == old(count(Connected)) + 1 && last(Write, 1) == "<handshake>" + hexenc(sha1raw(last(Connected, 1) + c.Secret)) + "</handshake>" && at(Connected, count(Connected) - 1) < at(Write, count(Write) - 1))
+//@   ensures [C16.wire.first] err == nil ==> count(Write) == old(count(Write)) + 1 && at(Write, count(Write) - 1) < at(PacketRead, count(PacketRead) - 1)
+//@   assigns c.TransportConfiguration.Domain, c.transport, c.CurrentState.state
+//@   emits EventHandler, Connected, Write, PacketRead, Spawn_recv, Spawn
